@@ -319,16 +319,16 @@ def unit_baseline_record(r):
 
 # ----------------------------------------------------------------------------- ownership
 def owner_of(pid_units, meta, f):
-    """which property a failed obligation belongs to"""
-    # explicit tag in the clause name: e.g. `ensures sem[C06]`
+    """which properties a failed obligation belongs to"""
     tagsrc = f.get("clause") or f.get("callee_clause") or ""
-    m = re.search(r"\[(C\d+(?:,C\d+)*)\]", tagsrc)
-    if m:
-        return m.group(1).split(",")
-    if f["kind"] in ("requires", "decreases", "overflow"):
-        return ["C04"]
-    serves = [p for p in meta["serves"] if p != "C04"]
-    return serves or ["C04"]
+    kind = f["kind"]
+    if kind in ("invariant-entry", "invariant-preserve"):
+        kind = "invariant"
+    if kind in ("overflow",):
+        kind = "requires"
+    if kind == "assert":
+        kind = "lemma"
+    return clause_owners(meta, kind, tagsrc)
 
 
 # ----------------------------------------------------------------------------- known findings
@@ -356,22 +356,39 @@ def own(meta, x):
     return (x.get("unit") or meta["unit"]) == meta["unit"]
 
 
-def obligation_list(meta):
-    """named obligations defined by this unit (not by included units)"""
+def clause_owners(meta, kind, clause):
+    """properties a named obligation counts for"""
+    m = re.search(r"\[(C\d+(?:,C\d+)*)\]", clause or "")
+    if m:
+        return m.group(1).split(",")
+    sem = [p for p in meta["serves"] if p != "C04"] or ["C04"]
+    if kind in ("requires", "decreases", "panic-site"):
+        return ["C04"]
+    if kind == "body":
+        return list(meta["serves"])
+    return sem
+
+
+def obligation_list(meta, pid=None):
+    """named obligations defined by this unit (not by included units), optionally those counting for pid"""
     u = meta["unit"]
     obs = []
+
+    def add(kind, clause, text):
+        if pid is None or pid in clause_owners(meta, kind, clause):
+            obs.append(text)
     for c in meta["clauses"]:
         if own(meta, c):
-            obs.append("%s/%s/%s:%s" % (u, c["fn"], c["kind"], c["clause"]))
+            add(c["kind"], c["clause"], "%s/%s/%s:%s" % (u, c["fn"], c["kind"], c["clause"]))
     for f in meta["functions"]:
         if own(meta, f) and f["has_body"]:
-            obs.append("%s/%s/body(termination+panic-freedom+callee-preconditions)" % (u, f["fn"]))
+            add("body", "", "%s/%s/body(termination+panic-freedom+callee-preconditions)" % (u, f["fn"]))
     for i, sx in enumerate(meta["panic_sites"]):
         if own(meta, sx):
-            obs.append("%s/%s/panic-site:%s@%s:%d" % (u, sx["fn"], sx["site"], sx["file"], sx["line"]))
+            add("panic-site", "", "%s/%s/panic-site:%s@%s:%d" % (u, sx["fn"], sx["site"], sx["file"], sx["line"]))
     for l in meta["lemmas"]:
         if l["own"]:
-            obs.append("%s/prelude/lemma:%s" % (u, l["name"]))
+            add("lemma", "", "%s/prelude/lemma:%s" % (u, l["name"]))
     return obs
 
 
@@ -456,7 +473,7 @@ def check(pid, tier, seed, rebaseline=False):
                 undecided.append("%s: retry ended in %s" % (u, r2["status"]))
                 continue
             results[u] = r
-        obs = obligation_list(meta)
+        obs = obligation_list(meta, pid)
         all_obs += obs
         for f in fails:
             f["unit"] = u
@@ -483,7 +500,7 @@ def check(pid, tier, seed, rebaseline=False):
         for fnname, e in sorted(r["breakdown"].items()):
             fn_rows.append(dict(unit=u, function=fnname, z3_us=e["time_us"], rlimit=e["rlimit"], ok=e["success"]))
         for c in meta["clauses"]:
-            if own(meta, c):
+            if own(meta, c) and pid in clause_owners(meta, c["kind"], c["clause"]):
                 samples.append("%s/%s/%s:%s  ::  %s" % (u, c["fn"], c["kind"], c["clause"], " ".join(c["text"].split())[:200]))
     if rebaseline:
         os.makedirs(os.path.dirname(baseline_path()), exist_ok=True)
